@@ -411,6 +411,7 @@ class dir_archive(archive):
         return
     __setitem__.__doc__ = dict.__setitem__.__doc__
     def clear(self):
+        [self._rmtree(_dir) for _dir in self._lsdir()]
         rmtree(self.__state__['id'], self=False, ignore_errors=True)
         return
     clear.__doc__ = dict.clear.__doc__
@@ -527,7 +528,18 @@ class dir_archive(archive):
 
     def _rmdir(self, key):
         "remove results subdirectory corresponding to given key"
-        rmtree(self._getdir(key), self=True, ignore_errors=True)
+        self._rmtree(self._getdir(key))
+        return
+    def _mvdir(self, _dir):
+        "move a results subdirectory aside; it is then 'temporary', and not a key"
+        _tmp = '%s.%s' % (os.path.basename(_dir)[len(PREFIX):], os.getpid())
+        _tmp = os.path.join(self.__state__['id'], PREFIX+TEMP+_tmp)
+        try: os.rename(_dir, _tmp)
+        except OSError: return None
+        return _tmp
+    def _rmtree(self, _dir):
+        "remove a results subdirectory, so that it is never seen half-removed"
+        rmtree(self._mvdir(_dir) or _dir, self=True, ignore_errors=True)
         return
     def _lsdir(self):
         "get a list of subdirectories in the root directory"
@@ -643,8 +655,10 @@ class dir_archive(archive):
             raise
         # move the results to the proper place
         try: #XXX: possible permissions issues here
-            self._rmdir(key) #XXX: 'key' must be a suitable dir name
+            _old = self._mvdir(self._getdir(key)) #XXX: 'key' must be a suitable dir name
+            if _old is None: self._rmdir(key)
             os.renames(self._getdir(_key), self._getdir(key))
+            if _old: rmtree(_old, self=True, ignore_errors=True)
 #       except TypeError: #XXX: catch key that isn't converted to safe filename
 #           "error in populating directory for '%s'" % str(key)
         except OSError: #XXX: if rename fails, may need cleanup (_rmdir ?)
